@@ -678,6 +678,18 @@ def walk_ctx(n, ctx=()):
                 if s.get("init") is not None:
                     for x in walk_ctx(s["init"], cur):
                         yield x
+                    # `let g = match opt { Some(g) => g, None => continue };` / `let v = if c { return } else { .. };`:
+                    # the statements that follow run only on the arms / branch that did not leave
+                    e = strip(s["init"])
+                    if isinstance(e, dict) and e.get("k") == "Match" and not str(e.get("source", "")).startswith("ForLoopDesugar"):
+                        stay = [i for i, a in enumerate(e["arms"]) if not _diverging(a["body"])]
+                        if 0 < len(stay) < len(e["arms"]):
+                            cur = cur + (("after-arm", e, stay),)
+                    elif isinstance(e, dict) and e.get("k") == "If" and e.get("else") is not None:
+                        if _diverging(e["then"]) and not _diverging(e["else"]):
+                            cur = cur + (("after", e, False),)
+                        elif _diverging(e["else"]) and not _diverging(e["then"]):
+                            cur = cur + (("after", e, True),)
                 for g in pat_exprs(s["pat"]):
                     for x in walk_ctx(g, cur):
                         yield x
